@@ -215,9 +215,29 @@ def run_case(case):
         else:
             script = {'statements': [uncanon_stmt(s) for s in case['model']]} if 'model' in case else parse_script(case['text'])
             before = copy.deepcopy(script)
-            val = execute_script(script, options)
-            res['res'] = tree(val)
-            res['model_mutated'] = before != script
+            try:
+                val = execute_script(script, options)
+                res['res'] = tree(val)
+            finally:
+                res['model_mutated'] = before != script
+                if case.get('rerun_same_options'):
+                    # a second run with the SAME options object (fresh globals, fresh log): the counter is reset at entry
+                    pool2 = {}
+                    g2 = {k: build(v, pool2) for k, v in case.get('globals', {}).items()}
+                    log2 = []
+                    options['globals'] = g2
+                    if 'logFn' in options:
+                        options['logFn'] = log2.append
+                    second = {}
+                    try:
+                        second['res'] = tree(execute_script(script, options))
+                    except BareScriptRuntimeError as exc2:
+                        second['rt'] = str(exc2)
+                    except Exception as exc2:  # pylint: disable=broad-except
+                        second['host'] = type(exc2).__name__
+                    second['log'] = [str(x) for x in log2]
+                    second['count'] = options.get('statementCount')
+                    res['second'] = second
     except BareScriptRuntimeError as exc:
         res['rt'] = str(exc)
     except BareScriptParserError as exc:
